@@ -813,7 +813,7 @@ def replay(payload):
 
 # ------------------------------------------------------------------ batch / evidence
 TIERS = {
-    "quick": {"runs": 4000, "chunk": 50, "wall_cap": 600},
+    "quick": {"runs": 8000, "chunk": 50, "wall_cap": 900},
     "thorough": {"runs": 80000, "chunk": 200, "wall_cap": 3400},
 }
 
@@ -822,7 +822,11 @@ def batch(task):
     lib.get()
     agg = new_agg()
     for run in range(task["lo"], task["hi"]):
-        res, prog = one_run(task["seed"], run)
+        try:
+            res, prog = runner.guarded(one_run, 120, task["seed"], run)
+        except (runner.RunTimeout, lang.HarnessError) as e:
+            agg["harness"].append({"run": run, "why": repr(e)[:200]})
+            continue
         fold(agg, res, prog)
         if len(agg["violations"]) >= 40:
             break
